@@ -208,6 +208,17 @@ func runC20(c *Ctx) {
 			// the rendered buffer itself may be handed over (its Bytes() being taken by the serving side at construction)
 			okAssets = sameOrigins(unboxed(sv.Call.Args[1]), unboxed(eargs[0]))
 		}
+		// the buffer rendered into belongs to this construction alone (never a pooled / shared buffer whose bytes a later
+		// construction would overwrite under the handler that keeps serving them)
+		okPriv, badPriv := allOrigins(eargs[0], oCall(-1, "bytes.NewBuffer"), func(o Origin) bool {
+			al, isAl := o.V.(*ssa.Alloc)
+			if !isAl {
+				return false
+			}
+			n, _ := structOf(al.Type())
+			return n != nil && typeFullName(n) == "bytes.Buffer"
+		})
+		c.obI("R20.1", ex, "rendering-buffer-private", okPriv, "the page is rendered into a buffer created by this very construction", "origin "+describeOrigin(badPriv))
 		c.obI("R20.1", sv, "ui-serves-the-rendering", okAssets && dominates(ex, sv), "serveUI serves the bytes rendered by the template at construction time", "assets argument is not the buffer Execute wrote")
 		okNext, _ := allOrigins(sv.Call.Args[2], oIsValue(f.Params[1]))
 		c.obI("R20.1", sv, "ui-next", okNext, "the UI middleware forwards to the handler it was given", "")
@@ -341,7 +352,7 @@ func runC20(c *Ctx) {
 				continue
 			}
 			_, _, immT, field := chainRoot(st.Addr)
-			if immT == nil || field != "SpecURL" {
+			if immT == nil || (field != "SpecURL" && !(field == "Document" && typeFullName(immT) == "rt/middleware.specOptions")) {
 				continue
 			}
 			nSU++
@@ -351,11 +362,11 @@ func runC20(c *Ctx) {
 					return false
 				}
 				_, _, t2, f2 := chainRoot(ld)
-				return t2 != nil && f2 == "SpecURL"
+				return t2 != nil && (f2 == "SpecURL" || f2 == field)
 			})
 			why := "origin " + describeOrigin(bad)
 			if okV {
-				if _, isK := constString(st.Val); isK {
+				if _, isK := constString(st.Val); isK && fn.Synthetic == "" {
 					fa, _ := st.Addr.(*ssa.FieldAddr)
 					isThis := func(v ssa.Value) bool {
 						ad, isLd := derefLoad(v)
@@ -370,7 +381,7 @@ func runC20(c *Ctx) {
 					}
 				}
 			}
-			c.obI("R20.3", st, "SpecURL-verbatim", okV, "the SpecURL referenced by the page is the configured value, verbatim (it is never rewritten: the spec route is derived from the very same string)", why)
+			c.obI("R20.3", st, field+"-verbatim", okV, "the "+field+" the UI references / the spec is served under is the configured value, verbatim (never rewritten: the spec route and the page are derived from the very same string)", why)
 		}
 	}
 	c.obF("R20.3", p.Fn("(*rt/middleware.uiOptions).EnsureDefaults"), "SpecURL-writers", nSU >= 2, "writers of SpecURL found (option setter and default)", fmt.Sprintf("%d", nSU))
